@@ -19,6 +19,12 @@ inline void writeCells(State &S, const Val &dst, const std::vector<ByteCell> &ce
   RegionData &D = R.w();
   i128 dlo, dhi; offsetBounds(S, dst, dlo, dhi);
   eraseScalars(D, dlo, dhi + nMax);
+  D.noteWrite(dlo, dhi + nMax, false);
+  { // a definite NUL cell inside the strongly written part (or the possible terminator positions of a truncating write)
+    i128 firstNul = -1, lastNul = -1;
+    for (i128 i = 0; i < nMax; i++) if (cells[(size_t)i].cs[0]) { if (firstNul < 0) firstNul = i; lastNul = i; }
+    bool definite = lastNul >= 0 && (cells[(size_t)lastNul].cs.count() == 1) && lastNul < nMax;
+    if (definite && lastNul == nMax - 1) D.noteWrite(dlo + firstNul, dhi + lastNul + 1, true); }
   for (i128 i = 0; i < nMax; i++) {
     const ByteCell &c = cells[(size_t)i];
     if (dlo == dhi) { if (i < nStrong) D.setStrong(dlo + i, c); else D.join(dlo + i, c); }
@@ -30,7 +36,8 @@ inline ByteCell constCell(uint8_t b, uint8_t prov = P_CONST) { ByteCell c; c.cs.
 
 inline int ndigits(unsigned __int128 v) { int d = 1; while (v >= 10) { v /= 10; d++; } return d; }
 
-struct FmtAlt { std::vector<ByteCell> bytes; std::vector<std::tuple<int, i128, i128>> refine; bool bad = false; };
+struct FmtAlt { std::vector<ByteCell> bytes; std::vector<std::tuple<int, i128, i128>> refine;
+                std::vector<std::tuple<const Value *, i128, i128>> vrefine; bool bad = false; };
 
 // returns false when the format cannot be modelled
 inline bool expandFormat(State &S, const CallBase *CB, const std::string &fmt, unsigned firstArg, std::vector<FmtAlt> &alts, std::string &why) {
@@ -69,13 +76,16 @@ inline bool expandFormat(State &S, const CallBase *CB, const std::string &fmt, u
           if (dlo == dhi) { std::string s = i128s((i128)dlo); for (char ch : s) a.bytes.push_back(constCell((uint8_t)ch, v.prov)); }
           else for (int k = 0; k < d; k++) { ByteCell c; c.cs.reset(); for (char ch = (k == 0 && d > 1) ? '1' : '0'; ch <= '9'; ch++) c.cs.set((uint8_t)ch); c.prov = v.prov; a.bytes.push_back(c); }
           if (v.root >= 0 && ndigits(lo) != ndigits(hi)) a.refine.emplace_back(v.root, (i128)dlo - v.rk, (i128)dhi - v.rk);
+          if (ndigits(lo) != ndigits(hi) && !isa<Constant>(CB->getArgOperand(ai - 1))) a.vrefine.emplace_back(CB->getArgOperand(ai - 1), (i128)dlo, (i128)dhi);
           out.push_back(a);
         }
       }
       alts.swap(out);
     } else if (cv == 's') {
       i128 plo = -1, phi = -1;
+      const Value *precV = nullptr;
       if (star) {
+        precV = CB->getArgOperand(ai);
         Val pv = getVal(S, CB->getArgOperand(ai++)); tighten(S, pv);
         if (pv.k != Val::INT || pv.r.isFullSet() || pv.r.getSignedMin().isNegative()) { why = "%.*s with unbounded/negative precision"; return false; }
         plo = pv.r.getSignedMin().getSExtValue(); phi = pv.r.getSignedMax().getSExtValue();
@@ -93,6 +103,8 @@ inline bool expandFormat(State &S, const CallBase *CB, const std::string &fmt, u
       for (i128 L = lo; L <= hi; L++)
         for (auto a : alts) {
           for (i128 k = 0; k < L; k++) { ByteCell c = readByte(S, R, olo + k); c.cs.reset(0); if (c.cs.none()) { a.bad = true; } a.bytes.push_back(c); }
+          // when the precision decides the length, pin the precision value in this alternative
+          if (star && precV && !isa<Constant>(precV) && lo != hi && (shi < 0 || phi <= slo)) a.vrefine.emplace_back(precV, L, L);
           if (!a.bad) out.push_back(a);
         }
       if (out.empty()) { why = "%s: no feasible length"; return false; }
